@@ -151,9 +151,14 @@ def who_writes_fields(ctx, adt_path, field=None):
 
 
 def seq_equal_under(pc, a, b):
-    """sequence equality modulo parts whose length is zero under pc"""
+    """sequence equality modulo the constants pinned by pc and parts whose length is zero under pc"""
     if equal(a, b):
         return True
+    pin = T.pinned(pc)
+    if pin:
+        a, b = T.rebuild(a, pin), T.rebuild(b, pin)
+        if equal(a, b):
+            return True
 
     def parts(x):
         x = T.canon_seq(x)
